@@ -211,14 +211,35 @@ def default_guess_sequences(run):
             if max(eE, ec, eb) > 1e-5:
                 return (f"E error {eE:.2e}, cp {ec:.2e}, baseline {eb:.2e}")
             return None
-        for variant in ("control", "edited-guess-first"):
+        sibling = {"hertz_para": "sneddon_spher_approx",
+                   "hertz_cone": "hertz_pyr3s",
+                   "hertz_pyr3s": "hertz_cone"}[mk]
+        for variant in ("control", "edited-guess-first",
+                        "other-model-first"):
             idnt = curves.make_indentation(cols)
             key = f"default-guess:{mk}:{variant}"
             run.case({"default-guess": variant, "model": mk}, kind="refit")
             try:
                 with warnings.catch_warnings():
                     warnings.simplefilter("ignore")
-                    if variant != "control":
+                    if variant == "other-model-first":
+                        # a model with the same parameter names fitted first
+                        # (its own geometry defaults, edited): the switch
+                        # starts from the new model's defaults
+                        p = idnt.get_initial_fit_parameters(model_key=sibling)
+                        geo = [n for n in p if n not in (
+                            "E", "contact_point", "baseline", "nu")]
+                        if geo:
+                            p[geo[0]].set(value=float(p[geo[0]].value) * 0.6)
+                        idnt.fit_model(model_key=sibling, params_initial=p,
+                                       segment="approach")
+                        idnt.fit_model(model_key=mk, segment="approach")
+                        why = recovered(idnt, 0)
+                        if why:
+                            why = "after the switch from " + sibling + ": " \
+                                + why
+                            raise AssertionError(why)
+                    elif variant != "control":
                         p = idnt.get_initial_fit_parameters(model_key=mk)
                         geo = [n for n in p if n not in (
                             "E", "contact_point", "baseline", "nu")]
@@ -236,6 +257,8 @@ def default_guess_sequences(run):
                         why = recovered(idnt, 1)
                         if why:
                             why = "retract: " + why
+            except AssertionError as e:
+                why = str(e)
             except BaseException as e:
                 why = f"raised {type(e).__name__}: {e}"
             if why and variant == "control":
